@@ -68,9 +68,10 @@ Struct(f) == [e \in DOMAIN f |-> DOMAIN f[e]]
 
 C03_Client(st, g, c) ==
     LET T == st.cli[c].updTick
-    IN /\ T \in DOMAIN g.snap
-       /\ T \in DOMAIN g.snap =>
-            Struct(View(st, c)) = Struct(Restrict(g.snap[T], g.visAt[T][c]))
+    IN \* before the first update message of a session the client reports tick 0 and must hold nothing
+       /\ IF T \in DOMAIN g.snap
+          THEN Struct(View(st, c)) = Struct(Restrict(g.snap[T], g.visAt[T][c]))
+          ELSE T = 0 /\ Held(st, c) = {}
        /\ \A e \in Held(st, c) : st.cli[c].ents[e].marker
        /\ \A e \in DOMAIN st.cli[c].ents : st.cli[c].ents[e].alive    \* no dangling map entries
 
